@@ -466,10 +466,14 @@ class RSocketBase(RSocket, RSocketInternal):
         logger().debug('%s: Cleanup', self._log_identifier())
 
         self._is_closing = True
-        await cancel_if_task_exists(self._sender_task)
-        self._sender_task = None
-        await cancel_if_task_exists(self._receiver_task)
-        self._receiver_task = None
+
+        # Detach the tasks before awaiting their cancellation: a reconnect requested from on_close() runs
+        # concurrently and must not have its new tasks cancelled or forgotten by this clean-up.
+        sender_task, self._sender_task = self._sender_task, None
+        receiver_task, self._receiver_task = self._receiver_task, None
+
+        await cancel_if_task_exists(sender_task)
+        await cancel_if_task_exists(receiver_task)
 
     async def _close_transport(self):
         if self._current_transport().done():
